@@ -21,6 +21,20 @@ CHECKS = {
                 "validated against torch in every run. Known findings D3, D25, D30 are listed in known_findings.json.",
         "technique": "Coq theorems (induction on index tuples; invariant linking the code's two passes to torch's adjacent-subspace rule) + differential correspondence",
     },
+    "C17": {
+        "text": ("Proof (Coq): for every invertible operation the inverse function's re-parsing of the recorded (args, kwargs) yields the same "
+                 "inverse call for every spelling (positional / keyword / mixed / defaults / custom separator), and that call undoes the forward "
+                 "operation on shapes of ANY rank and any (negative) dims: transpose is an involution, permute composed with argsort is the identity "
+                 "on arbitrary lists (element positions included), flatten/unflatten and squeeze/unsqueeze are mutual inverses (squeeze of a "
+                 "non-singleton dim has the identity as inverse); the write-back rule is in place (same keys, same storages) for a locked original "
+                 "and admits new keys for an unlocked one; nested blocks pop their inverses in LIFO order; the registry of decorated operations "
+                 "vs registered inverses is re-translated from /repo on every run and a finite theorem over it is re-proved. "
+                 "Tie: the inverse call actually issued by __exit__ is recorded and compared with the model for every op x spelling; the oracle "
+                 "compares the original after the block with inverse(modified) computed independently, on regular, lazy and tensorclass originals."),
+        "note": COMMON_NOTE + "Tensor contents moved by the transformations are torch's; to_module as a context manager is C13's; the value-level "
+                "flatten_keys/unflatten_keys round trip is C04's theorem.",
+        "technique": "Coq theorems (list surgery, permutations, queue discipline) + ast-translated registry table + recorded-inverse-call correspondence",
+    },
     "C18": {
         "text": ("Proof (Coq): for ALL slices/lengths the compile-only _slice_indices equals CPython's slice.indices; for ALL key objects the "
                  "Python-branch unravel functions equal the native ones and equal the in-order fringe on well-formed keys; both _parse_batch_size "
